@@ -34,6 +34,10 @@ type wpState struct {
 	gate     chan struct{}
 	parked   int32
 	wbuf     int
+	seq      uint32 // sequence number stamped into the next packet's payload (payloads of >= 4 bytes)
+	rx       []byte // bytes received and not yet parsed into packets
+	lastSeq  uint32
+	orderBad string // first out-of-order arrival seen on the wire
 }
 
 func (h *wpHook) ID() string { return "wp" }
@@ -68,7 +72,10 @@ func wpOf(st *state) *wpState {
 
 // wpPacket: a QoS 0 PUBLISH (MQTT 3.1.1) on topic "t" whose encoded size is exactly size
 // (1 header byte + the remaining-length bytes + 2 + 1 + payload); sizes 130 and 16387 do not exist.
-func wpPacket(size int) packets.Packet {
+func wpPacket(size int) packets.Packet { return wpPacketSeq(size, 0) }
+
+// wpPacketSeq stamps seq (big endian) into the first four payload bytes when the payload has room
+func wpPacketSeq(size int, seq uint32) packets.Packet {
 	for n := size - 7; n <= size-5; n++ {
 		if n < 0 {
 			continue
@@ -82,10 +89,45 @@ func wpPacket(size int) packets.Packet {
 			lb = 3
 		}
 		if 1+lb+rem == size {
-			return packets.Packet{FixedHeader: packets.FixedHeader{Type: packets.Publish}, TopicName: "t", Payload: make([]byte, n)}
+			pl := make([]byte, n)
+			if n >= 4 && seq > 0 {
+				pl[0], pl[1], pl[2], pl[3] = byte(seq>>24), byte(seq>>16), byte(seq>>8), byte(seq)
+			}
+			return packets.Packet{FixedHeader: packets.FixedHeader{Type: packets.Publish}, TopicName: "t", Payload: pl}
 		}
 	}
 	panic("no PUBLISH of that size")
+}
+
+// parse consumes complete PUBLISH packets from rx and checks that stamped sequence numbers only grow
+func (w *wpState) parse() {
+	for len(w.rx) >= 2 {
+		rem, lb := 0, 0
+		for i := 1; i < len(w.rx) && i <= 4; i++ {
+			rem |= int(w.rx[i]&0x7f) << (7 * uint(i-1))
+			if w.rx[i]&0x80 == 0 {
+				lb = i
+				break
+			}
+		}
+		if lb == 0 || len(w.rx) < 1+lb+rem {
+			return
+		}
+		body := w.rx[1+lb : 1+lb+rem]
+		if len(body) >= 3+4 {
+			pl := body[3:]
+			seq := uint32(pl[0])<<24 | uint32(pl[1])<<16 | uint32(pl[2])<<8 | uint32(pl[3])
+			if seq > 0 {
+				if seq < w.lastSeq && w.orderBad == "" {
+					w.orderBad = fmt.Sprintf("bad(%d-after-%d)", seq, w.lastSeq)
+				}
+				if seq > w.lastSeq {
+					w.lastSeq = seq
+				}
+			}
+		}
+		w.rx = w.rx[1+lb+rem:]
+	}
 }
 
 func (w *wpState) settle() {
@@ -108,13 +150,17 @@ func (w *wpState) render(res string) string {
 	w.settle()
 	w.mu.Lock()
 	conn, drops := w.conn, w.drops
+	order := "ok"
+	if w.orderBad != "" {
+		order = w.orderBad
+	}
 	w.mu.Unlock()
 	ob := "nil"
 	if n := w.cl.VerifOutbufLen(); n > 0 {
 		ob = fmt.Sprint(n)
 	}
-	return fmt.Sprintf("%s q=%d outbuf=%s conn=%d reported=%d dropreports=%d", res, w.cl.VerifOutboundQty(), ob, conn,
-		atomic.LoadInt64(&w.s.Info.BytesSent), drops)
+	return fmt.Sprintf("%s q=%d outbuf=%s conn=%d reported=%d dropreports=%d order=%s", res, w.cl.VerifOutboundQty(), ob, conn,
+		atomic.LoadInt64(&w.s.Info.BytesSent), drops, order)
 }
 
 func init() {
@@ -149,6 +195,8 @@ func init() {
 				n, err := c1.Read(tmp)
 				w.mu.Lock()
 				w.conn += n
+				w.rx = append(w.rx, tmp[:n]...)
+				w.parse()
 				w.mu.Unlock()
 				if err != nil {
 					return
@@ -162,7 +210,8 @@ func init() {
 	runners["wp.enq"] = func(st *state, a []string) string { // wp.enq <size>
 		w := wpOf(st)
 		wasEmpty := w.cl.VerifOutboundQty() == 0
-		if !w.cl.VerifEnqueue(wpPacket(atoi(a[0]))) {
+		w.seq++
+		if !w.cl.VerifEnqueue(wpPacketSeq(atoi(a[0]), w.seq)) {
 			return w.render("full")
 		}
 		if wasEmpty { // the write loop dequeues at once and parks at the yield point
